@@ -11,16 +11,18 @@ import (
 // space, 2/3/4-byte runes, case pairs outside ASCII, the Kelvin sign (lower-cases to
 // ASCII k) and U+FFFD.
 var Alphabet = []rune{'a', 'b', 'c', 'A', 'B', 'k', 'K', '0', '1', '_', '-', ']', '\\', '"', '\'', '^', ' ', '\n', '\t',
-	'é', 'É', 'ß', '日', 'K', '😀', '�', 'Ⱥ', 'ⱥ'}
+	'é', 'É', 'ß', '日', 'K', '😀', '�', 'Ⱥ', 'ⱥ', 'ǅ', 'Ⅳ', '%', ','}
 
 // SafeAlphabet leaves out the runes that only matter to the front-end.
 // (Ⱥ U+023A is two bytes long, its lower case ⱥ U+2C65 three; the Kelvin sign is three bytes long,
 // its lower case is the ASCII k; a percent sign and a comma - next to the blank - are what a
-// message built with a format string or joined with ", " must leave alone)
-var SafeAlphabet = []rune{'a', 'b', 'c', 'A', 'B', 'k', '0', '1', '_', ' ', '\n', 'é', 'É', '日', '😀', 'Ⱥ', 'ⱥ', '\u212a', '%', ','}
+// message built with a format string or joined with ", " must leave alone; ǅ U+01C5 and Ⅳ U+2163
+// have a lower case without being upper-case letters)
+var SafeAlphabet = []rune{'a', 'b', 'c', 'A', 'B', 'k', '0', '1', '_', ' ', '\n', 'é', 'É', '日', '😀', 'Ⱥ', 'ⱥ', '\u212a', '%', ',', 'ǅ', 'Ⅳ'}
 
 // UClassPool are the Unicode classes drawn by the ordinary profiles.
-var UClassPool = []string{"L", "Lu", "Ll", "N", "Nd", "P", "Z", "S", "M", "C", "Latin", "Greek", "Han", "Cyrillic", "White_Space"}
+// (ASCII_Hex_Digit is the one table without a member behind Basic Latin)
+var UClassPool = []string{"L", "Lu", "Ll", "N", "Nd", "P", "Z", "S", "M", "C", "Latin", "Greek", "Han", "Cyrillic", "White_Space", "ASCII_Hex_Digit"}
 
 // GenConfig selects the feature mix of a profile.
 type GenConfig struct {
@@ -455,6 +457,18 @@ func (c *gen) bait() (*Expr, bool) {
 			e.Sub = append([]*Expr{c.lit()}, e.Sub...)
 		}
 		return e, false
+	}
+	if c.chance(6, "prefixlitbait") {
+		// a literal that is a prefix of a later alternative, with and without the i flag on either:
+		// "g" / "gib"i - only the later one matches "Gib"
+		p := string(Pick(c.t, []rune{'g', 'k', 'é', 'B'}, "plp"))
+		a := &Expr{K: KLit, Val: []byte(p), IC: c.chance(30, "plaic")}
+		b := &Expr{K: KLit, Val: []byte(p + Pick(c.t, []string{"ib", "A", "0é"}, "plrest")), IC: c.chance(60, "plbic")}
+		alts := []*Expr{a}
+		if c.chance(50, "plmid") {
+			alts = append(alts, &Expr{K: KLit, Val: []byte(string(c.rune_()))})
+		}
+		return &Expr{K: KChoice, Sub: append(alts, b)}, false
 	}
 	if c.chance(6, "mixedcasebait") {
 		// a class without the i flag whose members have no case but whose range holds letters of
